@@ -398,6 +398,7 @@ func builderCmd(args []string) error {
 	what := fs.String("what", "fees,change,fund", "event families to generate")
 	n := fs.Int("n", 300, "random transactions per family")
 	only := fs.Bool("only", false, "cases only")
+	huge := fs.Bool("huge", false, "fund: one scenario whose input count crosses 65536")
 	fs.Parse(args)
 	tr, err := newTrace(*out)
 	if err != nil {
@@ -564,6 +565,19 @@ func builderCmd(args []string) error {
 			}
 			emit(fundEvent("gen", tx, q, replies))
 		}
+	}
+	if want["fund"] && *huge {
+		// funding that takes the input count across 65535/65536 (the 3-byte / 5-byte count varint)
+		tx := bt.NewTx()
+		tx.AddOutput(&bt.Output{Satoshis: 70000000, LockingScript: p2pkhScript(1)})
+		mk := func(n, from int, sats uint64) reply {
+			r := reply{kind: "batch"}
+			for j := 0; j < n; j++ {
+				r.utxos = append(r.utxos, &bt.UTXO{TxID: bytes.Repeat([]byte{byte(from + j)}, 32), Vout: uint32(j % 7), Satoshis: sats, LockingScript: p2pkhScript(byte(j))})
+			}
+			return r
+		}
+		emit(fundEvent("gen-huge", tx, quote{1, 1, 1, 2}, []reply{mk(65530, 0, 1000), mk(10, 3, 1000), mk(1, 9, 50000000)}))
 	}
 	_ = fmt.Sprint
 	return tr.close()
